@@ -91,6 +91,18 @@ func runC13Case(c c13Case) (string, []explore.Violation) {
 		_ = writeAny(s, "r1")
 		_ = writeAny(s, "r2")
 		last(s, "r3")
+	case "chain10", "chain200":
+		// long logs: the snapshot file spans several unixfs chunks and read buffers although every entry is small
+		k := 10
+		if c.Shape == "chain200" {
+			k = 200
+		}
+		for j := 1; j < k; j++ {
+			if err := writeSized(s, fmt.Sprintf("r%d", j), size); err != nil {
+				bad("harness-write-failed", err.Error())
+			}
+		}
+		last(s, fmt.Sprintf("r%d", k))
 	case "fork":
 		last(s, "r1")
 		_ = writeAny(sa, "a1")
@@ -227,6 +239,13 @@ func c13Cases(tier string) []c13Case {
 			}
 		}
 	}
+	// file sizes beyond one unixfs chunk / read buffer (256 KiB) with entries that each fit the 16-bit length
+	for _, k := range []string{"eventlog", "keyvalue", "docstore"} {
+		for _, sz := range []int{20000, 30000} {
+			out = append(out, c13Case{Kind: k, Shape: "chain10", Size: sz})
+		}
+	}
+	out = append(out, c13Case{Kind: "eventlog", Shape: "chain200", Size: 16})
 	// windows of +-70 value sizes (step 1) around the sizes at which the marshalled entry and the marshalled
 	// header cross 65535 bytes (found by measuring, because values are base64-encoded twice on the way)
 	ce, ch := crossing(65535, false), crossing(65535, true)
@@ -250,7 +269,7 @@ func c13Cases(tier string) []c13Case {
 func init() {
 	explore.Register(&explore.CheckDef{
 		ID: "C13", Level: "exploration",
-		Rule:   "cross product on fresh worlds, crash-isolated: log shape {empty, chain 1..3, fork, two-writer merge, replicated only, replication in progress (fetch parked while saving)} x store type x payload-size landmarks {0,1,100,4Ki,30000,65535,65536,100Ki, three sizes that put the snapshot file around the 262144-byte unixfs chunk boundary, 300Ki}, plus windows of consecutive payload sizes (step 1; +-12 quick, +-70 thorough) around the measured sizes at which the marshalled entry and the marshalled header cross 65535 bytes, on two shapes. SaveSnapshot, restart the instance on the same cache and blockstore, LoadFromSnapshot. Oracle: a save error passes; otherwise the reload must succeed and reproduce entry set, ordered list, heads and view (superset for the in-progress shape); a panic or hang is a violation. Saving while the database changes: SaveSnapshot is given the real store behind a wrapper that counts its log calls; a whole local write, a whole replication merge of two remote entries, or both, run before any chosen call (every call, every ordered pair of calls); a successful save must then reload, contain everything held before saving began, nothing that was never written, be closed under ancestry, and show the view of its own log. Non-trivial = cases with payload size >= 4096 or a non-chain shape.",
+		Rule:   "cross product on fresh worlds, crash-isolated: log shape {empty, chain 1..3, fork, two-writer merge, replicated only, replication in progress (fetch parked while saving)} x store type (plus chains of 10 entries of 20000 / 30000 bytes and of 200 small entries: snapshot files of several unixfs chunks) x payload-size landmarks {0,1,100,4Ki,30000,65535,65536,100Ki, three sizes that put the snapshot file around the 262144-byte unixfs chunk boundary, 300Ki}, plus windows of consecutive payload sizes (step 1; +-12 quick, +-70 thorough) around the measured sizes at which the marshalled entry and the marshalled header cross 65535 bytes, on two shapes. SaveSnapshot, restart the instance on the same cache and blockstore, LoadFromSnapshot. Oracle: a save error passes; otherwise the reload must succeed and reproduce entry set, ordered list, heads and view (superset for the in-progress shape); a panic or hang is a violation. Saving while the database changes: SaveSnapshot is given the real store behind a wrapper that counts its log calls; a whole local write, a whole replication merge of two remote entries, or both, run before any chosen call (every call, every ordered pair of calls); a successful save must then reload, contain everything held before saving began, nothing that was never written, be closed under ancestry, and show the view of its own log. Non-trivial = cases with payload size >= 4096 or a non-chain shape.",
 		Units:  func(tier string) []explore.Unit { return explore.ChunkUnits("c13-"+tier, 16) },
 		Budget: func(tier string) float64 { return 500 },
 		RunUnit: func(c *explore.Ctx) {
